@@ -97,6 +97,55 @@ func (fc *FnCtx) evalClause(env *SpecEnv, cl *Clause) (t Term) {
 	return fc.S.Define("cl."+cl.Label, v.T)
 }
 
+// evalConjuncts splits a boolean spec expression into its top-level
+// conjuncts (unfolding pure spec functions), so that an obligation can be
+// discharged and reported clause by clause.
+func (env *SpecEnv) evalConjuncts(e SExpr) []Term {
+	switch x := e.(type) {
+	case SBinary:
+		if x.Op == "&&" {
+			return append(env.evalConjuncts(x.X), env.evalConjuncts(x.Y)...)
+		}
+	case SCall:
+		fc := env.FC
+		if pd := fc.E.pure(env.PkgPath, x.Fun); pd != nil && !pd.Uninterp && len(pd.Params) == len(x.Args) && env.depth < 6 {
+			if rt, _ := env.resolveType(pd.Ret); rt == tBool || types.Identical(rt, tBool) {
+				n := *env
+				n.PkgPath = pd.PkgPath
+				n.depth = env.depth + 1
+				n.Vars = map[string]TVal{}
+				n.Macros = map[string]SExpr{}
+				for i, p := range pd.Params {
+					pt, k := n.resolveType(p.Type)
+					a := env.eval(x.Args[i])
+					if a.Nil {
+						a.T = fc.TE.Zero(pt)
+					}
+					a.Ty, a.Kind = pt, k
+					n.Vars[p.Name] = a
+				}
+				return n.evalConjuncts(pd.Body)
+			}
+		}
+	}
+	return []Term{env.boolT(e)}
+}
+
+func (fc *FnCtx) evalClauseParts(env *SpecEnv, cl *Clause) (ts []Term) {
+	defer func() {
+		if r := recover(); r != nil {
+			if se, ok := r.(specErr); ok {
+				panic(unsupported{fmt.Sprintf("%s: clause %q: %s", cl.Pos, cl.Src, se.msg)})
+			}
+			panic(r)
+		}
+	}()
+	for _, t := range env.evalConjuncts(cl.Expr) {
+		ts = append(ts, fc.S.Define("cl."+cl.Label, t))
+	}
+	return ts
+}
+
 func (env *SpecEnv) te() *TypeEnv { return env.FC.TE }
 
 func (env *SpecEnv) boolT(e SExpr) Term {
